@@ -1013,12 +1013,18 @@ pub fn run(a: &Args, corpus: &[Value]) {
     // phrases for the pattern rules gen::TRIGGERS does not reach (the `R` lines should cover all 29 rules)
     const MORE_TRIGGERS: &[&str] = &["a text fro Sarah", "away fro sure", "I would argue that this is so", "I here by declare this",
         "the amateur expert spoke", "it is advancing backwards", "managed to peak his interest", "peeked his interest",
-        "it is wide accepted that", "wide acceptable standards"];
+        "it is wide accepted that", "wide acceptable standards", "I am confidant", "she seems confidant"];
     for c in gen::TRIGGERS.iter().chain(MORE_TRIGGERS.iter()) {
         for _ in 0..a.scale(2, 10) {
             let text = format!("{} {}, {} {c}; {}", gen::clean_sentence(&mut r), c, gen::clean_sentence(&mut r).to_lowercase(), gen::clean_sentence(&mut r));
             premise_monitor(&mut rep, &real_rules, "plain", &text, &dict);
         }
+        // the phrase as the LAST words of the text (no closing punctuation): a lint that sticks out of its last token by
+        // one character leaves the chunk and the document here and nowhere else (mutation d11)
+        let text = format!("{} {c}", gen::clean_sentence(&mut r).trim_end_matches(|ch: char| ch.is_ascii_punctuation()));
+        premise_monitor(&mut rep, &real_rules, "plain", &text, &dict);
+        group.set_all_rules_to(Some(true));
+        check_document(&mut rep, "plain", &text, &mut group, &dict, "all");
     }
     let all_keys: Vec<String> = group.iter_keys().map(|s| s.to_string()).collect();
     for fe in &fes {
